@@ -36,7 +36,7 @@ var c14RespFaultKinds = []string{
 	"sig-corrupt", "sig-corrupt", "sig-wrong-key", "sig-drop", "sig-drop", "sig-extra",
 	"disallow", "disallow", "other-room", "strip-state-key", "truncate", "malformed", "null",
 	"long-room-id", "type-cp", "type-bytes", "big-event",
-	"omit", "omit", "omit", "dup-pdu", "dup-tuple",
+	"omit", "omit", "omit", "dup-pdu", "dup-tuple", "twin-sig", "twin-sig",
 }
 
 func c14GenStateResponse(t *rapid.T) c14RespCase { return c14GenResp(t, false) }
@@ -149,6 +149,9 @@ func c14BuildLists(room *c14Room, c c14RespCase) [2][]c14Item {
 	omit := map[int]int{}
 	dupPDU := map[int]int{}
 	dupTuple := map[int]bool{}
+	// twin-sig: two JSON objects under ONE event ID, a validly signed one and one whose signature is
+	// bad, in different lists (value-1 = the list that gets the bad copy)
+	twin := map[int]int{}
 	for i := range c.Faults {
 		f := &c.Faults[i]
 		if !room.ok(f.At) {
@@ -165,6 +168,8 @@ func c14BuildLists(room *c14Room, c c14RespCase) [2][]c14Item {
 			dupPDU[f.At] |= 1 << (f.Arg % 2)
 		case f.Kind == "dup-tuple":
 			dupTuple[f.At] = true
+		case f.Kind == "twin-sig":
+			twin[f.At] = 1 + f.Arg%2
 		}
 	}
 	items := map[int]c14Item{}
@@ -180,6 +185,12 @@ func c14BuildLists(room *c14Room, c c14RespCase) [2][]c14Item {
 	for li, l := range [][]int{c.Auth, c.State} {
 		for _, i := range l {
 			if !room.ok(i) || omit[i]&(1<<li) != 0 {
+				continue
+			}
+			if tw := twin[i]; tw != 0 && tw-1 == li && evFault[i] == nil {
+				bad := c14MakeItem(room, i, &c14Fault{Kind: "sig-corrupt", At: i, Arg: 7})
+				bad.Kind = "twin-sig"
+				lists[li] = append(lists[li], bad)
 				continue
 			}
 			lists[li] = append(lists[li], item(i))
@@ -201,6 +212,23 @@ func c14BuildLists(room *c14Room, c c14RespCase) [2][]c14Item {
 		}
 	}
 	return lists
+}
+
+// c14TwinInBothLists: a twin-sig copy is present and the same event ID also occurs elsewhere.
+func c14TwinInBothLists(lists [2][]c14Item) bool {
+	for li := range lists {
+		for _, it := range lists[li] {
+			if it.Kind != "twin-sig" {
+				continue
+			}
+			for _, other := range lists[1-li] {
+				if other.ID == it.ID && other.Kind != "twin-sig" {
+					return true
+				}
+			}
+		}
+	}
+	return false
 }
 
 func c14Raws(items []c14Item) EventJSONs {
@@ -296,7 +324,7 @@ func c14RespClasses(ctx *vfCtx, room *c14Room, c c14RespCase, lists [2][]c14Item
 				real = true
 			}
 			want := true
-			for _, k := range c14SigFaults {
+			for _, k := range append([]string{"twin-sig"}, c14SigFaults...) {
 				if it.Kind == k {
 					want = false
 				}
@@ -516,12 +544,19 @@ func c14CheckStateResponse(ctx *vfCtx, c c14RespCase) {
 			return
 		}
 	}
-	v, ok := c14JudgeResp(ctx, "C14/state-response", room, c, lists, ga, gs, err)
-	if !ok {
-		return
+	if c14TwinInBothLists(lists) {
+		// which of two objects under one event ID "the event" is, the statement does not say: the
+		// reference model is not consulted, only "every returned event has verified signatures"
+		ctx.Class("twin-sig:soundness-only")
+		ctx.Unjudged("two JSON objects under one event ID (one validly signed, one not): completeness not judged")
+	} else {
+		v, ok := c14JudgeResp(ctx, "C14/state-response", room, c, lists, ga, gs, err)
+		if !ok {
+			return
+		}
+		c14Baseline(ctx, c, lists, v)
+		c14OutcomeClasses(ctx, room, c, lists, v)
 	}
-	c14Baseline(ctx, c, lists, v)
-	c14OutcomeClasses(ctx, room, c, lists, v)
 	// every returned event, read back from the library's own copy, has verified signatures
 	if err == nil {
 		for _, p := range append(append([]PDU{}, gotAuth...), gotState...) {
@@ -564,6 +599,22 @@ func c14CheckSendJoin(ctx *vfCtx, c c14RespCase) {
 	if c14Catch(ctx, "C14/send-join", lists, true, func() {
 		res, err = CheckSendJoinResponse(c14Quiet(), RoomVersion(c.Version), resp, c14Verifier(), join, prov, vfUserIDForSender)
 	}) {
+		return
+	}
+	if c14TwinInBothLists(lists) {
+		ctx.Class("twin-sig:soundness-only")
+		ctx.Unjudged("two JSON objects under one event ID (one validly signed, one not): completeness not judged")
+		if err == nil {
+			for _, l := range []EventJSONs{res.GetAuthEvents(), res.GetStateEvents()} {
+				for _, raw := range l {
+					t, perr := evTree(raw)
+					if perr != nil || !c14SigOK(c.Version, t) {
+						ctx.Fail("C14/send-join/returned-event-without-verified-signatures", "send_join accepted and returned an event that does not carry verified signatures of all required servers: %s", raw)
+						return
+					}
+				}
+			}
+		}
 		return
 	}
 	readings := []bool{false}
